@@ -475,7 +475,7 @@ def plan(tier, seed):
         for combo in itertools.product(layer_cells, repeat=L):
             for sub in SUBS:
                 for amb in AMBS:
-                    for lam in (LAMS if L <= 3 else [0.55]):
+                    for lam in (LAMS if L < Lmax else [0.55]):
                         stacks.append({'layers': [list(c) for c in combo], 'sub': sub, 'amb': amb, 'lam': lam})
     # exit-medium thickness variants (phase of t only) for short stacks
     for L in range(0, 2):
@@ -529,7 +529,7 @@ def plan(tier, seed):
                   '(exit-medium thickness in {0, l/4n, l/2n, 0.137}) against both the closed forms and the library Fresnel functions; non-trivial when n0 != n1'),
         ScopeUnit('stacks', stacks, run_stack,
                   f'EVERY stack of 0..{Lmax} layers over indices {{1,1.38,1.5,2.3}} x thicknesses {{0, l/4n, l/2n, 0.137}} x exit medium {{1.5,1,2.3}} x ambient {{1,1.33}} x '
-                  f'wavelength {{0.55,1.0}} (4-layer stacks: 0.55 only), each at aoi in {aoitxt} (those below the critical angle of the exit medium; layers may be evanescent) x pol {{s,p}}: '
+                  f'wavelength {{0.55,1.0}} ({Lmax}-layer stacks: 0.55 only), each at aoi in {aoitxt} (those below the critical angle of the exit medium; layers may be evanescent) x pol {{s,p}}: '
                   'r and t complex-equal to an independent admittance-form characteristic-matrix reference, and R + (n_s cos th_s / n_0 cos th_0)|t|^2 = 1; '
                   'because thickness 0 and l/2n are in the alphabet this also covers zero-thickness and normal-incidence absentee layers at every position'),
         ScopeUnit('absorbing', absorb, run_stack,
